@@ -101,10 +101,19 @@ func VH_C19_RateLimit() {
 	model := map[string]*win{}
 	served := map[string]int{}
 	k := vh.Param("K", 4)
+	// two IPv4 clients (directly or through a proxy header), or two IPv6 clients of one
+	// network connecting directly (RemoteAddr "[addr]:port")
+	fam := vh.Choice("family", 3)
+	vh.Tag("family", []string{"ipv4", "ipv6-same-network", "ipv6-loopback-and-mapped"}[fam])
+	addrs := [][]string{{"10.0.0.1", "10.0.0.2"}, {"[2001:db8::1]", "[2001:db8::2]"}, {"[::1]", "[::ffff:192.0.2.9]"}}[fam]
 	for n := 0; n < k; n++ {
-		addr := []string{"10.0.0.1", "10.0.0.2"}[vh.Choice("addr", 2)]
+		addr := addrs[vh.Choice("addr", 2)]
 		req := vhttp.Request("GET", "/v2/", nil, nil, nil, 0)
-		switch vh.Choice("via", 3) {
+		via := 0
+		if fam == 0 {
+			via = vh.Choice("via", 3)
+		}
+		switch via {
 		case 0:
 			req.RemoteAddr = addr + ":4711"
 		case 1:
